@@ -412,7 +412,15 @@ also('C11', 'MeasureGate.forward passes only the state, its index and its genera
 also('C16', 'a conversion that flattens the batch after a shape snapshot restores the layout from that snapshot (ST4).')
 also('C19', 'the tokenizer of the indexed Pauli form reads multi-digit qubit indices (Q8); split groups are unpacked in the order of their sizes (UN1).')
 
+# ---- clauses added with the round-8 rules
+also('C03', 'a fused run of gates multiplies the later gate from the left (ORD1); the simulator kernels keep a single formulation (SG1); qubit 0 is never read as "not given" (TR1).')
+also('C05', 'every Cholesky positive-semidefiniteness test is shifted (PSD1: rank-deficient states are not rejected).')
+also('C08', 'an angle is quantised to quarter turns with round, never int / floor (RND1).')
+also('C17', 'the kept subsystems of partial_trace are normalised through sorted(..) (PT1 reports an order-preserving normalisation).')
+also('C18', 'trial-division sweeps include the integer square root (TD1); a buffer allocated from a scalar parameter receives no quotient / root item store (DT14); the return_dm conversion is the last transformation of the result (RD2).')
+also('C20', 'accumulating loops of the certificate routines append on every iteration (DROP1); the subset_by_index windows of the two ends of the spectrum have equal width (EVS1).')
+
 for _p in sorted(CLAIMS):
     also(_p, 'no function outside the reviewed set of 24 memoised functions is decorated with lru_cache / cache (or keeps a module-level memo) while returning an unfrozen '
              'NumPy / torch object (MC3: no new shared mutable result in the modules of this property; package-wide in the thorough tier); no function of those modules writes in place into (a view of) an '
-             'array it was given (PU1, incl. `x op= v` on an array parameter); every module-level memo is keyed on all inputs of the stored value (MC1); no certainly-real buffer receives a certainly-complex value (DTF1); no reshape regroups symbolically typed axes in another factor order and no product pairs two merged axes of different factor order (FL1 axis-order typing).')
+             'array it was given (PU1, incl. `x op= v` on an array parameter); every module-level memo is keyed on all inputs of the stored value (MC1); no certainly-real buffer receives a certainly-complex value (DTF1); no reshape regroups symbolically typed axes in another factor order and no product pairs two merged axes of different factor order (FL1 axis-order typing); every local name bound to a computed value is read (UV1, three reviewed exceptions); an option is forwarded to a same-named option of a numqi helper on a delegating branch (FW2); eigh eigenvectors are transposed only with conjugation (EVH1); no real cast of an array inside a branch whose dtype test admits complex (CAST1).')
